@@ -196,7 +196,15 @@ class Renderer:
         lines += ["    " + ln if ln else ln for ln in fn]
         return "\n".join(lines) + "\n"
 
-    def module(self, d, base=None):
+    def module(self, d, base=None, function_form=False):
+        if function_form:
+            # a plain graph-creator FUNCTION (no decorator): the harness passes this very object to
+            # macro_node(...) / as_macro_node(...)(...) several times with different declarations
+            body_cls = [None if e[1] is None else self.cls(e[1]) for e in d["body"]]
+            fn = "\n".join(self.render(d, "creator", body_cls).split("\n")[1:])
+            self.chunks.append(fn)
+            return ("from pyiron_workflow.nodes.macro import Macro, as_macro_node\n"
+                    "from harness.props.c09 import FN\n\n\n" + "\n\n".join(self.chunks) + "\n\nTOP = 'creator'\n")
         if base is None:
             top = self.cls(d)
             extra = ""
@@ -496,13 +504,69 @@ def inlined_workflow(mod_top, d, args, tag):
 
 
 # =============================================================================================
+def scraped_labels(d):
+    """the labels the return statement of the creator spells (None when it cannot be scraped)"""
+    out = []
+    for _, a in d["rets"]:
+        if a[0] == "p":
+            out.append(d["ps"][a[1]][0])
+        elif a[0] == "o" and n_outs(d["body"][a[1]]) == 1:
+            out.append(d["body"][a[1]][0])
+        else:
+            return None
+    return out if len(set(out)) == len(out) else None
+
+
+def variant_def(d, var):
+    """the definition a declaration `macro_node(creator, output_labels=var['labels'])` stands for"""
+    labels = var["labels"] if var["labels"] is not None else scraped_labels(d)
+    return dict(d, rets=[[lab, r[1]] for lab, r in zip(labels, d["rets"])], scrape=var["labels"] is None)
+
+
+def declare(creator, var, label):
+    """one declaration of a macro from the creator object, in the form the variant asks for"""
+    from pyiron_workflow.nodes.macro import as_macro_node, macro_node
+    labels = var["labels"]
+    if var.get("form") == "decorator":
+        cls = as_macro_node(*(labels or ()), use_cache=var.get("use_cache", True))(creator)
+        return cls(label=label)
+    kw = {} if labels is None else {"output_labels": labels[0] if len(labels) == 1 and var.get("bare") else tuple(labels)}
+    if not var.get("use_cache", True):
+        kw["use_cache"] = False
+    return macro_node(creator, label=label, **kw)
+
+
+def variant_facts(creator, d, var, i):
+    """declare, inspect and run one earlier macro made from the same creator object"""
+    dv_ = variant_def(d, var)
+    try:
+        mv = declare(creator, var, f"v{i}")
+    except Exception as e:                      # noqa
+        return {"static": ["EXC", type(e).__name__], "error": f"{type(e).__name__}: {str(e)[:150]}"}
+    out = {"static": snap_static(mv), "struct": structure_facts(mv, dv_), "use_cache": bool(mv.use_cache)}
+    try:
+        args = []
+        for k, c in enumerate(mv.inputs):
+            if _val(c.value) is None:
+                mv.inputs[c.label] = 3 + i + k
+            args.append(c.value)
+        out["ins"] = [_val(a) for a in args]
+        mv.run()
+        out["outs"] = [_val(c.value) for c in mv.outputs]
+        out["links"] = link_facts(mv, dv_)
+    except Exception as e:                      # noqa
+        out["run_error"] = type(e).__name__
+    return out
+
+
 def run_impl(case):
     d, ops = case["d"], case["ops"]
     base = case.get("base")
+    variants = case.get("variants")
     r = Renderer()
-    src = r.module(d, None if base is None else base["d"])
+    src = r.module(d, None if base is None else base["d"], function_form=variants is not None)
     try:
-        mod = load_module(src, fresh=base is not None)
+        mod = load_module(src, fresh=base is not None or variants is not None)
     except ValueError:
         return [["ValueError"], {"stage": "define"}]
     except Exception as e:                      # noqa
@@ -519,14 +583,19 @@ def run_impl(case):
             base_cls(label="b")
         except Exception as e:                  # noqa
             return [["EXC-base", type(e).__name__, str(e)[:200]], {}]
+    earlier = []
+    if variants is not None:                     # the SAME creator object declared several times, one process
+        earlier = [variant_facts(top, d, var, i) for i, var in enumerate(variants[:-1])]
     try:
-        m = top(label="m")
+        m = top(label="m") if variants is None else declare(top, variants[-1], "m")
     except ValueError:
-        return [["ValueError"], {"stage": "construct"}]
+        main = ["ValueError"]
+        return [main if variants is None else [[e["static"] for e in earlier], main], {"stage": "construct", "variants": earlier}]
     except Exception as e:                      # noqa
         return [["EXC-construct", type(e).__name__, str(e)[:200]], {}]
     static = snap_static(m)
-    extras = {"struct": structure_facts(m, d), "links0": link_facts(m, d), "steps": []}
+    extras = {"struct": structure_facts(m, d), "links0": link_facts(m, d), "steps": [], "variants": earlier,
+              "use_cache": bool(m.use_cache)}
     if base is not None:
         try:                                     # control: the parent class keeps ITS interface
             from pyiron_workflow.channels import NOT_DATA
@@ -592,7 +661,10 @@ def run_impl(case):
             steps.append(snap_dyn(m))
         ex["links"] = link_facts(m, d)
         extras["steps"].append(ex)
-    return [[static, dyn0, steps], extras]
+    main = [static, dyn0, steps]
+    if variants is not None:
+        main = [[e["static"] for e in earlier], main]
+    return [main, extras]
 
 
 def model_view(case, obs):
@@ -644,7 +716,13 @@ def model_term(case):
     # scrapes its own return statement whichever class was used first (declared labels are inherited as an
     # ordinary class attribute; the generator never relies on that), so the parent plays no role in the model
     d = case["d"]
-    return f"oscenario {coq_def(d)} {cl(coq_op(o) for o in case['ops'])}"
+    main = f"oscenario {coq_def(d)} {cl(coq_op(o) for o in case['ops'])}"
+    if case.get("variants") is None:
+        return main
+    # every earlier declaration made from the same creator: the wiring of ITS OWN definition
+    stat = [f'(match build {coq_def(variant_def(d, var))} {cs("v%d" % i)} with Some (s, _) => ostatic s | None => OL [OS "ValueError"] end)'
+            for i, var in enumerate(case["variants"][:-1])]
+    return f"OL [OL {cl(stat)}; {main}]"
 
 
 # =============================================================================================
@@ -970,6 +1048,24 @@ def generate(ctx):
                 for o, r in enumerate(d["rets"]):
                     r[0] = "out%d" % o
             case["base"] = {"d": b, "first": rng.choice(["base", "base", "derived"])}
+        if 0.2 <= fam < 0.32 and not malformed(d) and d["rets"]:
+            # FUNCTION form: the same creator object declared two or three times (macro_node(creator, ...),
+            # sometimes the decorator applied to it) with different labels / flags; the last one runs the ops
+            own = [r[0] for r in d["rets"]]
+            last = {"labels": None if d.get("scrape") else own, "form": "function", "use_cache": True,
+                    "bare": len(own) == 1 and rng.random() < 0.5}
+            variants = []
+            for i in range(rng.choice([1, 1, 2])):
+                r = rng.random()
+                if r < 0.35 and len(own) > 1:
+                    labels = own[1:] + own[:1] if rng.random() < 0.5 else list(reversed(own))    # the same names, permuted
+                elif r < 0.55 and scraped_labels(d) is not None and own != scraped_labels(d):
+                    labels = None
+                else:
+                    labels = ["%s%d" % (rng.choice(["a", "big", "lo", "t"]), o) for o in range(len(own))]
+                variants.append({"labels": labels, "form": "decorator" if rng.random() < 0.2 else "function",
+                                 "use_cache": rng.random() < 0.8, "bare": labels is not None and len(labels) == 1 and rng.random() < 0.5})
+            case["variants"] = variants + [last]
         k = json.dumps(case, sort_keys=True)
         if k in seen:
             continue
@@ -1009,6 +1105,48 @@ def failures(case, obs):
     main, ex = obs
     bad = []
     why = malformed(d)
+    variants = case.get("variants")
+    if variants is not None and isinstance(main, list) and len(main) == 2 and isinstance(main[0], list) \
+            and not (main and isinstance(main[0], str)):
+        main = main[1]
+    if variants is not None and isinstance(ex, dict):
+        # every declaration made from the same creator object is checked against ITS OWN declaration
+        for i, (var, f) in enumerate(zip(variants[:-1], ex.get("variants", []))):
+            dv_ = variant_def(d, var)
+            want_out = [r[0] for r in dv_["rets"]]
+            if "error" in f:
+                bad.append(("variant-refused", -1, f"declaration {i} ({var}) of the same creator raised {f['error']}", None))
+                continue
+            for sf in f["struct"][:1]:
+                if sf["pout"] != want_out or sf["inst_out"] != want_out:
+                    bad.append(("interface", -1, f"declaration {i} of the same creator declares outputs {want_out}; its class "
+                                                 f"previews {sf['pout']}, the instance carries {sf['inst_out']}", None))
+                want_in = [[p[0], p[2], None if p[1] is None else [p[1]]] for p in d["ps"]]
+                if sf["pin"] != want_in:
+                    bad.append(("interface", -1, f"declaration {i}: previewed inputs {sf['pin']}, the creator declares {want_in}", None))
+            if f.get("use_cache") != var.get("use_cache", True):
+                bad.append(("interface", -1, f"declaration {i} asked for use_cache={var.get('use_cache', True)}, the macro has "
+                                             f"{f.get('use_cache')}", None))
+            if "run_error" in f:
+                a_ = [None if v is None else v[0] for v in f.get("ins", [])]
+                runnable = len(a_) == len(d["ps"]) and all(isinstance(a, int) for a in a_) and py_denote(dv_, a_) is not None
+                if runnable and not dup_returns(dv_):
+                    bad.append(("run-failed", -1, f"declaration {i}: run raised {f['run_error']} although every call of "
+                                                  f"the definition has its arguments", None))
+                continue
+            if not dup_returns(dv_):
+                for kind, path, idx, mv, pv in f.get("links", []):
+                    if mv != pv:
+                        bad.append((f"sync-{kind}", -1, f"declaration {i}: macro {kind}put {idx} at {path} holds {mv}, its child "
+                                                        f"channel holds {pv}", ("variant", path, idx)))
+                args = [None if v is None else v[0] for v in f.get("ins", [])]
+                if len(args) == len(d["ps"]) and all(isinstance(a, int) for a in args):
+                    ref = py_denote(dv_, args)
+                    if ref is not None and f.get("outs") != [[v] for v in ref]:
+                        bad.append(("run-differs", -1, f"declaration {i} (labels {want_out}) with inputs {args} returned "
+                                                       f"{f.get('outs')}, plain python gives {ref}", ("variant",)))
+        if ex.get("use_cache") is not None and ex["use_cache"] != variants[-1].get("use_cache", True):
+            bad.append(("interface", -1, f"the last declaration asked for use_cache={variants[-1].get('use_cache', True)}", None))
     if main and main[0] == "ValueError":
         if not why:
             bad.append(("refused", -1, "a well-formed definition raised ValueError", None))
@@ -1155,10 +1293,18 @@ def nontrivial(case, obs):
 
 
 def key(case):
-    return [case["d"], case["ops"], case.get("base")]
+    return [case["d"], case["ops"], case.get("base"), case.get("variants")]
 
 
 def shrink_candidates(case):
+    if case.get("variants") is not None:
+        ops, vs = case["ops"], case["variants"]
+        for i in range(len(ops)):
+            yield dict(case, ops=ops[:i] + ops[i + 1:])
+        for i in range(len(vs) - 1):
+            if len(vs) > 2:
+                yield dict(case, variants=vs[:i] + vs[i + 1:])
+        return
     if case.get("base") is not None:
         d, ops = case["d"], case["ops"]
         for i in range(len(ops)):
@@ -1195,7 +1341,8 @@ def distribution(results):
     dist = {"depth": {}, "params_used": {"0": 0, "1": 0, "many": 0}, "passthrough": 0, "nested_fed_by_param": 0,
             "flow": {}, "scrape": 0, "defaults": 0, "hints": 0, "refused": 0, "runs": 0, "failed_runs": 0,
             "ops": {"macro_in": 0, "child_in": 0, "child_out": 0, "macro_out": 0, "run": 0, "bad": 0},
-            "refused_from_below": 0, "derived_class": {"base": 0, "derived": 0}, "children": {}}
+            "refused_from_below": 0, "derived_class": {"base": 0, "derived": 0},
+            "function_form": {"cases": 0, "declarations": 0, "decorator_first": 0, "scraped_then_explicit": 0}, "children": {}}
     for c, enc, v, o in results:
         d = c["d"]
         dist["depth"][str(depth_of(d))] = dist["depth"].get(str(depth_of(d)), 0) + 1
@@ -1211,6 +1358,12 @@ def distribution(results):
         dist["scrape"] += bool(d.get("scrape"))
         if c.get("base") is not None:
             dist["derived_class"][c["base"]["first"]] += 1
+        if c.get("variants") is not None:
+            ff = dist["function_form"]
+            ff["cases"] += 1
+            ff["declarations"] += len(c["variants"])
+            ff["decorator_first"] += any(v.get("form") == "decorator" for v in c["variants"][:-1])
+            ff["scraped_then_explicit"] += any(v["labels"] is None for v in c["variants"][:-1])
         if isinstance(o, list) and o and o[0] and o[0][0] == "ValueError":
             dist["refused"] += 1
         for op in c["ops"]:
